@@ -170,6 +170,12 @@ def run_direct(case, stats):
             viol.append({"mechanism": "wrong-endpoint", "detail": "%s: %s" % (box["where"], pr)})
         viol.append({"mechanism": "healthy-transfer-failed", "detail": "%s: %s: %s" % (box["where"], type(e).__name__, str(e)[:160])})
         return viol, box["where"]
+    except TypeError as e:
+        if "timeout must be an int" not in str(e):
+            raise
+        # python-libusb1 hands the timeout to a C unsigned int: anything but an int is an error there
+        viol.append({"mechanism": "timeout-ms", "detail": "%s: the backend was given a timeout that is not an int: %s" % (box["where"], e)})
+        return viol, box["where"]
 
 
 def _run_direct(case, stats, viol, box):
